@@ -71,6 +71,10 @@ def c03(root, tier, tree):
     for st in range(4):
         tasks += _gen_tasks(root, n // 3, plan, 100000 + st * 20000, bias={"oos": True, "strings": True}, force={"storage": st},
                             stream="program-mem%d" % st)
+    # allocation lifecycle programs: defaults, deletes in every kind of place, then uses of the same string
+    for st in (0, 1, 2, 3, 3, 3):
+        tasks += _gen_tasks(root, n // 5, plan, 300000 + len(tasks), force={"storage": st}, gen_kw={"lifecycle": True},
+                            stream="program-life%d" % st)
     return tasks
 
 
@@ -98,6 +102,37 @@ def c10(root, tier, tree):
     tasks += _gen_tasks(root, T["gen"], plan, 100000, force={"indirect": True}, stream="program-proto")
     tasks += _gen_tasks(root, T["gen"] // 2, plan, 200000, force={"indirect": True}, gen_kw={"want_yield": True},
                         bias={"oos": True, "strings": True}, stream="program-yield")
+    tasks += _twin_tasks(root, tier, tree, T)
+    return tasks
+
+
+def _twin_tasks(root, tier, tree, T):
+    """strict-done twins (oracle SD): corpus, generated and frame-family programs"""
+    from . import twins, families
+    tasks = []
+    tplan = {"n_inputs": T["plan"]["n_inputs"] + 2, "maxlen": T["plan"]["maxlen"]}
+    idx = 600000
+    for entry in workload.corpus(tree):
+        rng = sched.rng_for(root, "twin-options", idx)
+        argv = workload.sample_argv(rng, base=entry[2], force={"indirect": True, "strict": False})
+        u = workload.corpus_unit(entry, argv)
+        u["_fn"] = twins.twin_unit
+        tasks.append(("call", root, idx, u, tplan))
+        idx += 1
+    for i in range(T["gen"] // 2):
+        idx = 610000 + i
+        if i % 2 == 0:
+            p = workload.generated_unit(root, idx, stream="program-twin")
+            src, need, seeds, can = p["source"], p["need"], p["samples"], p["canaries"]
+        else:
+            rng = sched.rng_for(root, "family-twin", idx)
+            spec = families.gen_f1(rng, {"tail": rng.choice(("done", "done", "end", "finish"))})
+            src, need, can = spec["source"], spec["need"], {}
+            seeds = [x.hex() for x in families.f1_inputs(rng, spec, 8)]
+        rng = sched.rng_for(root, "twin-options", idx)
+        argv = workload.sample_argv(rng, need=need, force={"indirect": True, "strict": False})
+        u = {"label": "twin:%d" % idx, "source": src, "argv": argv, "seeds": seeds, "canaries": can, "_fn": twins.twin_unit}
+        tasks.append(("call", root, idx, u, tplan))
     return tasks
 
 
